@@ -7,11 +7,13 @@ package main
 // reply: ok <TYPE> | err | (crash / hang detected by the supervisor)
 
 import (
+	"encoding/hex"
 	"fmt"
 	"strings"
 
 	"github.com/ysugimoto/falco/v2/ast"
 	icontext "github.com/ysugimoto/falco/v2/interpreter/context"
+	"github.com/ysugimoto/falco/v2/interpreter/value"
 )
 
 func init() { register("builtin", builtinCmd) }
@@ -56,6 +58,18 @@ func builtinCmd(args string) string {
 	}
 	if v == nil {
 		return "ok nil"
+	}
+	if sv, ok := v.(*value.String); ok {
+		// length always; the bytes when they are few (the check compares lengths of long results)
+		body := "-"
+		if len(sv.Value) <= 8192 {
+			body = hex.EncodeToString([]byte(sv.Value))
+		}
+		ns := "0"
+		if sv.IsNotSet {
+			ns = "1"
+		}
+		return fmt.Sprintf("ok STRING %d %s %s", len(sv.Value), ns, body)
 	}
 	return "ok " + string(v.Type())
 }
